@@ -1503,6 +1503,10 @@ where
         if timestamp.saturating_sub(now.as_millis()) > MAX_TIME_DELTA.as_millis() as u64 {
             return Err(session::Error::InvalidTimestamp(timestamp));
         }
+        // Don't allow messages without a timestamp. The gossip store can't handle those.
+        if timestamp == Timestamp::MIN {
+            return Err(session::Error::InvalidTimestamp(timestamp));
+        }
 
         // We don't process announcements from nodes we don't know, since the node announcement is
         // what provides DoS protection.
